@@ -98,6 +98,7 @@ func runC06(c *core.Ctx) {
 		return false
 	}
 	c.Event("config timeout=%v peers=%d txs=%d steps=%d", timeout, nPeers, nTx, steps)
+	runStart := time.Now()
 	grants := make([][]time.Time, nTx)
 	type delivery06 struct {
 		tx   int
@@ -154,7 +155,13 @@ func runC06(c *core.Ctx) {
 			settle()
 			continue
 		}
-		switch t.Weighted([]int{8, 5, 5, 6}) {
+		switch t.Weighted([]int{8, 5, 5, 6, 2}) {
+		case 4: // the periodic clean-up with a cut-off before the run began: must forget nothing
+			if err := m.Clean(ctx, runStart.Add(-time.Hour)); err != nil {
+				c.Fail("c06.clean", "error", "Clean failed: %v", err)
+			}
+			c.Event("clean (cut-off before the run)")
+			c.Probe("clean")
 		case 0: // announcement
 			got, err := m.AddTxID(ctx, peers[p], ids[i])
 			want := !s.known || (!s.received && now.Sub(s.lastGrant) >= timeout)
